@@ -162,13 +162,19 @@ def random_op(rng, model):
              "set_scalar", "set_fn", "set_obs", "add_af", "read"]
     if have:
         kinds += ["unary", "binary", "scalar", "expr", "eval", "expr", "eval", "unary", "binary", "coord",
-                  "anyop", "anyop", "anyop"]
+                  "anyop", "anyop", "anyop", "expr_unknown"]
     k = rng.choice(kinds)
     name = rng.choice(NAMES)
     if k in ("create_list", "create_scalar", "remove", "delete_item", "update_list", "update_scalar", "set_list",
              "set_scalar", "set_fn", "set_obs", "add_af", "read"):
         return (k, name)
     i1, i2, o = rng.choice(have), rng.choice(have), rng.choice(NAMES)
+    if k == "expr_unknown":
+        # an expression that names a feature the track does not have (a misspelt name): it cannot be evaluated; the
+        # sub-expressions before the unknown name have already produced temporaries when the evaluation stops
+        t = rng.choice(["({a}+{b})*q", "{a}*2+zz", "{o}=({a}*2)+qq", "ABS{{{a}}}-{b}*nope", "{o}={a}-({b}+2)*w9",
+                        "AVG{{{a}}}+{b}*q", "{o}=D{{{a}}}+q*{b}"])
+        return ("expr_unknown", t.format(a=i1, b=i2, o=o), o if "=" in t else None)
     if k == "anyop":
         fam = rng.choice(["u", "u", "b", "shift", "shift", "s"])
         if fam == "u":
@@ -439,6 +445,14 @@ class Runner:
                 self.flags.add("delete_then_recreate")
             model[o] = [SCALAR[opn](x, kk) for x in model[i1]]
             status = "ok"
+        elif k == "expr_unknown":
+            e = op[1]
+            import re
+            used = set(re.findall(r"\b([abc])\b", e.split("=", 1)[-1]))
+            if any(u not in model for u in used):
+                return "skip", None, None
+            self.flags.add("expression_that_cannot_be_evaluated")
+            return "must_fail", (lambda: tr.operate(e)), op[2]
         elif k == "anyop":
             # any void operator, without a model of what it computes: the list the call RETURNS is what it says it
             # wrote, so that is what reading the output name must give afterwards; everything else must stay put
@@ -541,7 +555,24 @@ class Runner:
             return None
         self.applied.append(tuple(op))
         r = M.call(call)
-        if status == "from_return":
+        if status == "must_fail":
+            # error path: the call is expected to raise; afterwards no temporary may be listed, the table must be
+            # aligned and every name other than the assignment target must read as before (compare() below)
+            target = expect_return
+            self.ctx.monitor("failed_expression.state_consistent")
+            if not M.is_raised(r):
+                return {"what": "an expression naming a feature the track does not have was evaluated", "op": list(op),
+                        "got": r}
+            if target is not None:
+                listed = M.call(self.tr.getListAnalyticalFeatures)
+                if not M.is_raised(listed):
+                    if target in listed:
+                        got = M.call(self.tr.getAnalyticalFeature, target)
+                        if not M.is_raised(got):
+                            self.model[target] = [float(v) for v in got]
+                    elif target in self.model:
+                        del self.model[target]
+        elif status == "from_return":
             out = expect_return
             if M.is_raised(r):
                 if r.type not in ("ZeroDivisionError", "ValueError", "OverflowError"):
@@ -648,7 +679,9 @@ def classify(case, witness):
 
 # floors for the call-history workloads added in session 3 (a run in which they were silently skipped is inconclusive)
 _floors_base = floors
-_FLOORS_EXTRA = {'monitors': {'decoy.unchanged': 50000}}
+_FLOORS_EXTRA = {'monitors': {'decoy.unchanged': 50000, 'failed_expression.state_consistent': 500,
+                              'anyop.returned_list_is_what_is_read': 3000},
+                 'classes': {'shift_by_whole_turns': 500}}
 
 
 def floors(tier):
